@@ -14,31 +14,40 @@ with contextlib.redirect_stdout(io.StringIO()):
     from wannierberri.symmetry.point_symmetry import PointGroup
 
 PROPERTY = "C06"
-FUNCTIONS = ["Grid.get_K_list (symmetry reduction)", "KpointBZparallel.star/absorb/equiv/divide/distGamma", "grid.Kpoint.exclude_equiv_points", "PointGroup.star / PointSymmetry.transform_reduced_vector",
+FUNCTIONS = ["run_grid.run (refinement loop, stand-in system / stub data class)", "grid.determineNK (periodic mask)", "Grid.get_K_list (symmetry reduction)", "KpointBZparallel.star/absorb/equiv/divide/distGamma", "grid.Kpoint.exclude_equiv_points", "PointGroup.star / PointSymmetry.transform_reduced_vector",
              "GridTetra.__init__/split_tetra_volume/split_tetra_size/get_K_list", "grid_tetra.tetra_volume", "KpointBZtetra.__init__/divide/copy"]
 BOUNDS = dict(quick=dict(groups="none, Inversion, C4z, C4z+Inversion, C2z*TimeReversal, Mx+My (cubic cell), C3z, C6z (hexagonal cell)", grids="NKdiv 2x2x1, 2x2x2, 2x2x3, 3x3x1, 4x4x1 (NKFFT 1)",
                          histories="every choice of the refined K-point for one step; for two steps every second choice among the new points of a sample of first choices", adpt_mesh="2, (2,1,2), 3",
+                         periodic="3D-periodic as above; masks (T,T,F), (T,F,F), (F,T,T) on 2x2x1 / 2x1x1 / 1x2x2 grids with groups none, C4z, Inversion, Mx+My, meshes 2 and (2,3,2), every first "
+                         "choice + one second step, fresh mesh array per divide call and one shared array as in run(); the real run() on 4 stand-in systems (3 with a non-periodic direction), "
+                         "every history of 1-2 iterations chosen by symbolic priorities",
                          test_point="symbolic point p of the Brillouin zone (3 reals)", tetra="default 5 tetrahedra, 3 cells x 2 lengths; divide with symbolic vertices on each of the 6 edges, ndiv 2, 3"),
               thorough=dict(groups="as quick + C4z+Mx+TimeReversal, C2x+C2y", grids="as quick + 4x4x2, 6x6x1 (hex)", histories="every first choice; second step among the last 4 (2x2x1 grid, mesh 2) or 2 new points", adpt_mesh="2, (2,1,2), 3",
+                            periodic="as quick + masks (T,F,T), (F,F,T), 4x4x1 with C4z+Inversion, meshes 3 and (2,1,2); run() on 7 systems",
                             test_point="symbolic", tetra="as quick + trigonal wedges"))
 EXPLANATION = ("The real grid / K-point code runs on concrete rational geometry. For a symbolic point p of the Brillouin zone z3 decides that the cells of all symmetry images of the retained "
                "K-points, weighted with factor/(star size x cell volume), cover p with total density exactly 1 (QF_LRA), after the initial symmetry reduction and after every refinement "
-               "step; sum of weights, non-negativity and parent/child conservation are exact rational facts. For tetrahedra: p lies in exactly one tetrahedron of the start set / of the "
+               "step; sum of weights, non-negativity and parent/child conservation are exact rational facts. The same obligations are posed for systems with non-periodic directions "
+               "(the refined cell must keep its extent and centre there) through divide() and through the unmodified run() driven by symbolic refinement priorities. For tetrahedra: p lies in exactly one tetrahedron of the start set / of the "
                "children of a split (LRA), and with symbolic vertices the child volumes and factors add up to the parent's (polynomial identity).")
 ASSUMPTIONS = ["grid compatible with the group (Grid asserts it)", "the global density statement is only posed where every operation maps reduced-coordinate boxes onto boxes "
                "(signed permutations: cubic/tetragonal axes); for hexagonal cells the rotated image of a rhombic cell is not a grid cell, and the property is about points and weights: "
                "there the orbit partition of the grid points, the tiling of the refined cell by its sub-cells and the class weights of merged children are decided instead", "the test point does not lie on a cell boundary plane (measure zero; boundaries are shared by neighbouring cells)",
-               "refinement steps are applied the way run() applies them: K_list += K.divide(...); exclude_equiv_points(K_list, new_points=...)"]
+               "refinement steps are applied the way run() applies them: K_list += K.divide(...); exclude_equiv_points(K_list, new_points=...) — with a fresh adpt_mesh array per call "
+               "and with one array shared by all calls (divide writes the periodic mask into it); the run() cases use the real loop", "run() cases: refinement priorities positive (they are norms)",
+               "along a non-periodic direction the grid has one K-point with K=0, dK=1 (what Grid / determineNK produce)"]
 OUTSIDE = ["groups / grids / meshes beyond the enumerated ones", "more than two refinement steps (C10 follows weights through run() for longer histories)", "GridTrigonalH weights (a user-chosen fraction of the zone)"]
 QUERY_TIMEOUT_MS = dict(quick=20000, thorough=120000)
-STUBS = ["KpointBZtetra edge choice (name-mangled cached property) preset per case when the vertices are symbolic"]
+STUBS = ["run(): stub data_k_class / calculator returning one symbolic result and one symbolic priority per K-point; np.argsort(x)[-k:] by max selection (props/rundriver.py)",
+         "KpointBZtetra edge choice (name-mangled cached property) preset per case when the vertices are symbolic"]
 
 
 class SysG:
     periodic = np.array([True, True, True])
     NKFFT_recommended = np.array([1, 1, 1])
 
-    def __init__(s, gens, lattice):
+    def __init__(s, gens, lattice, periodic=(True, True, True)):
+        s.periodic = np.array(periodic, dtype=bool)
         s.real_lattice = np.array(lattice, dtype=float)
         s.recip_lattice = 2 * np.pi * np.linalg.inv(s.real_lattice).T
         s.pointgroup = PointGroup(list(gens), real_lattice=s.real_lattice)
@@ -147,9 +156,17 @@ def local_refinement_checks(rec, parent, sysobj, mesh, p, step):
         faces += [z3.Or(q[i] == lo[i], q[i] == hi[i]) for i in range(3)]
     rec.fact(f"step {step}: every point of the refined cell lies in exactly one sub-cell", z3.Implies(z3.Not(z3.Or(*faces)), z3.Sum([z3.If(b, 1, 0) for b in ins]) == 1),
              key=f"divide: sub-cells do not tile the refined cell (mesh {mesh})", logic="QF_LRA")
-    rec.concrete(f"step {step}: sub-cell weights are the parent's weight / number of sub-cells", all(fr(c.factor) == fr(parent.factor) / len(allch) for c in allch) and len(allch) == int(np.prod(nd)),
+    nd_eff = np.where(sysobj.periodic, nd, 1)          # the cell is divided along periodic directions only
+    rec.concrete(f"step {step}: sub-cell weights are the parent's weight / number of sub-cells", all(fr(c.factor) == fr(parent.factor) / len(allch) for c in allch) and len(allch) == int(np.prod(nd_eff)),
                  key="divide: sub-cell weights are not parent weight / number of sub-cells")
+    rec.concrete(f"step {step}: sub-cell size is dK / mesh along periodic directions; size and centre unchanged along non-periodic directions",
+                 all(fr(c.dK[i]) * int(nd_eff[i]) == fr(parent.dK[i]) and (sysobj.periodic[i] or fr(c.K[i]) == fr(parent.K[i])) for c in allch for i in range(3)),
+                 detail=str([(c.K.tolist(), c.dK.tolist()) for c in allch[:2]]), key=f"divide: sub-cells have the wrong extent / centre (periodic={_per(sysobj)})")
     return allch
+
+
+def _per(sysobj):
+    return "".join("T" if x else "F" for x in sysobj.periodic)
 
 
 def merged_weight_check(rec, allch, retained, sysobj, step):
@@ -172,14 +189,18 @@ def kl_summary(K_list):
     return [dict(K=[float(x) for x in K.K], dK=[float(x) for x in K.dK], factor=float(K.factor)) for K in K_list]
 
 
-def case_grid(rec, gens, latt, NKdiv, mesh, first, second):
-    """initial reduction, then refinement of K-point number `first` (and `second` among the list after the first step)"""
-    sysobj = SysG(gens, LATT[latt])
+def case_grid(rec, gens, latt, NKdiv, mesh, first, second, periodic=(True, True, True), shared=False):
+    """initial reduction, then refinement of K-point number `first` (and `second` among the list after the first step).
+    periodic: the system's mask of periodic directions (the cell must not be divided along the others); shared: all steps use ONE adpt_mesh
+    array object, as run() does (divide masks it in place), otherwise a fresh array per call"""
+    sysobj = SysG(gens, LATT[latt], periodic)
     p = symvec("p", (3,))
     ass = [z3.And(x.zreal() > 0, x.zreal() < 1) for x in p]
 
     def body(rec):
-        rec.witness = lambda env: dict(test="grid", gens=gens, latt=latt, NKdiv=NKdiv, mesh=mesh, first=first, second=second, p=[env.val(x) for x in p])
+        rec.witness = lambda env: dict(test="grid", gens=gens, latt=latt, NKdiv=NKdiv, mesh=mesh, first=first, second=second, p=[env.val(x) for x in p],
+                                       periodic=[bool(x) for x in periodic], shared=shared)
+        shared_mesh = np.array(mesh if not isinstance(mesh, int) else [mesh] * 3)
         with contextlib.redirect_stdout(io.StringIO()):
             g = Grid(system=sysobj, NKdiv=NKdiv, NKFFT=(1, 1, 1))
             K_list = g.get_K_list(use_symmetry=True)
@@ -213,7 +234,7 @@ def case_grid(rec, gens, latt, NKdiv, mesh, first, second):
             l1 = len(K_list)
             allch = local_refinement_checks(rec, parent, sysobj, mesh, p, step + 1)
             with contextlib.redirect_stdout(io.StringIO()):
-                new = parent.divide(ndiv=np.array(mesh if not isinstance(mesh, int) else [mesh] * 3), periodic=sysobj.periodic, use_symmetry=True)
+                new = parent.divide(ndiv=shared_mesh if shared else np.array(mesh if not isinstance(mesh, int) else [mesh] * 3), periodic=sysobj.periodic, use_symmetry=True)
             merged_weight_check(rec, allch, new, sysobj, step + 1)
             rec.concrete(f"step {step + 1}: the refined K-point is dead and its weight went to its sub-cells", parent.factor == 0 and sum(fr(K.factor) for K in new) == before,
                          detail=f"{before} -> {[float(K.factor) for K in new]}", key="divide: children weights do not add up to the parent's / parent keeps weight")
@@ -227,19 +248,21 @@ def case_grid(rec, gens, latt, NKdiv, mesh, first, second):
     rec.explore(body, ass)
 
 
-def case_divide_nosym(rec, NKdiv, mesh):
+def case_divide_nosym(rec, NKdiv, mesh, periodic=(True, True, True)):
     """divide with use_symmetry=False (run(use_irred_kpt=False)): parent dies, sub-cells tile it"""
-    sysobj = SysG([], LATT["cubic"])
+    sysobj = SysG([], LATT["cubic"], periodic)
     p = symvec("p", (3,))
     ass = [z3.And(x.zreal() > 0, x.zreal() < 1) for x in p]
 
     def body(rec):
-        rec.witness = lambda env: dict(test="nosym", NKdiv=NKdiv, mesh=mesh, p=[env.val(x) for x in p])
+        rec.witness = lambda env: dict(test="nosym", NKdiv=NKdiv, mesh=mesh, p=[env.val(x) for x in p], periodic=[bool(x) for x in periodic])
         with contextlib.redirect_stdout(io.StringIO()):
             g = Grid(system=sysobj, NKdiv=NKdiv, NKFFT=(1, 1, 1))
             K_list = g.get_K_list(use_symmetry=False)
             parent = K_list[1 % len(K_list)]
             before = fr(parent.factor)
+        local_refinement_checks(rec, parent, sysobj, mesh, p, 1)
+        with contextlib.redirect_stdout(io.StringIO()):
             new = parent.divide(ndiv=np.array(mesh if not isinstance(mesh, int) else [mesh] * 3), periodic=sysobj.periodic, use_symmetry=False)
         rec.concrete("use_symmetry=False: the refined K-point is dead and its weight went to its sub-cells", parent.factor == 0 and sum(fr(K.factor) for K in new) == before,
                      key="divide(use_symmetry=False): children weights do not add up to the parent's / parent keeps weight")
@@ -248,6 +271,48 @@ def case_divide_nosym(rec, NKdiv, mesh):
         rec.concrete("weights sum to one", sum(fs) == 1, detail=str(float(sum(fs))), key="weights do not sum to one / negative (use_symmetry=False)")
         density_fact(rec, K_list, sysobj, p, "sub-cells tile the refined cell (density 1 everywhere)", "after refinement without symmetry: cells do not tile the zone")
     rec.explore(body, ass)
+
+
+# ---- the real run() -------------------------------------------------------------------------------------------------
+def _run_sys(gens, periodic):
+    from props import rundriver as D
+    sysobj = D.Sys(gens)
+    sysobj.periodic = np.array(periodic, dtype=bool)
+    return sysobj
+
+
+def case_run(rec, gens, NKdiv, mesh, periodic, niter, irred):
+    """the unmodified run() with adaptive refinement on a stand-in system with the given periodic mask; the refined K-points are chosen by
+    symbolic priorities (forks = every history); after the last iteration the cells of the K list must tile the zone"""
+    from props import rundriver as D
+    D.setup_symbolic()
+    reg = D.Registry(1)
+    p = symvec("p", (3,))
+    ass = reg.assumptions(120) + [z3.And(x.zreal() > 0, x.zreal() < 1) for x in p]
+
+    def body(rec):
+        reg.reg.clear()
+        reg.evals.clear()
+        rec.witness = lambda env: dict(test="run", gens=gens, NKdiv=NKdiv, mesh=mesh, periodic=[bool(x) for x in periodic], niter=niter, irred=irred,
+                                       values=D.registry_values(env, reg), p=[env.val(x) for x in p])
+        obs = D.Observer(reg)
+        obs.install()
+        try:
+            with D.TmpDir() as tmp:
+                sysobj = _run_sys(gens, periodic)
+                D.do_run(sysobj, D.make_calc(reg), NKdiv, niter, tmp, use_irred_kpt=irred, symmetrize=irred, adpt_fac=1, adpt_mesh=mesh)
+        finally:
+            obs.uninstall()
+        K_list = obs.K_list
+        fs = [fr(K.factor) for K in K_list]
+        rec.concrete(f"run(): weights after {niter} refinement iterations non-negative and sum to one", all(f >= 0 for f in fs) and sum(fs) == 1, detail=str(float(sum(fs))),
+                     key="run(): weights do not sum to one / negative")
+        rec.concrete("run(): cells are not divided along non-periodic directions", all(periodic[i] or (fr(K.dK[i]) == 1 and fr(K.K[i]) == 0) for K in K_list for i in range(3)),
+                     detail=str([(K.K.tolist(), K.dK.tolist()) for K in K_list if any(not periodic[i] and fr(K.dK[i]) != 1 for i in range(3))][:2]),
+                     key=f"run(): K-point cells have the wrong extent / centre along a non-periodic direction")
+        density_fact(rec, K_list, sysobj, p, f"run(): after {niter} iterations the weighted cells of all symmetry images cover the zone with density 1",
+                     "run(): cells of the K list do not tile the zone after refinement")
+    rec.explore(body, ass, maxpaths=5000)
 
 
 # ---- tetrahedra ------------------------------------------------------------------------------------------------------
@@ -381,6 +446,31 @@ def cases(tier, seed):
                                         dict(gens=gens, latt=latt, NKdiv=NK, mesh=mesh, first=first, second=second), timeout=900 if q else 2400))
     for NK, mesh in (((2, 2, 1), 2), ((3, 1, 2), (2, 1, 2)), ((2, 2, 2), 3)):
         out.append(Case(f"divide without symmetry NK={NK} mesh={mesh}", case_divide_nosym, dict(NKdiv=NK, mesh=mesh), timeout=900))
+    # systems with non-periodic directions: the cell is divided along the periodic directions only (fresh mesh array per call / one shared array as in run())
+    PER = [((True, True, False), (2, 2, 1), [[], ["C4z"], ["Inversion"], ["Mx", "My"]]), ((True, False, False), (2, 1, 1), [[], ["Inversion"]]), ((False, True, True), (1, 2, 2), [[], ["Mx", "My"]])]
+    if not q:
+        PER += [((True, True, False), (4, 4, 1), [["C4z", "Inversion"]]), ((True, False, True), (2, 1, 3), [[], ["Inversion"]]), ((False, False, True), (1, 1, 3), [[], ["Inversion"]])]
+    for per, NK, gsets in PER:
+        ptxt = "".join("T" if x else "F" for x in per)
+        for mesh in ([2, (2, 3, 2)] if q else [2, 3, (2, 3, 2), (2, 1, 2)]):
+            out.append(Case(f"divide without symmetry periodic={ptxt} NK={NK} mesh={mesh}", case_divide_nosym, dict(NKdiv=NK, mesh=mesh, periodic=per), timeout=900))
+            for gens in gsets:
+                with contextlib.redirect_stdout(io.StringIO()):
+                    n0 = len(Grid(system=SysG(gens, LATT["cubic"], per), NKdiv=NK, NKFFT=(1, 1, 1)).get_K_list(use_symmetry=True))
+                for first in (range(n0) if (mesh == 2 or not q) else [n0 - 1]):
+                    for shared in (False, True):
+                        if shared and q and (first != 0 or mesh != 2):
+                            continue
+                        out.append(Case(f"grid {gens} cubic periodic={ptxt} NK={NK} mesh={mesh} refine #{first} then -1 ({'shared' if shared else 'fresh'} mesh array)", case_grid,
+                                        dict(gens=gens, latt="cubic", NKdiv=NK, mesh=mesh, first=first, second=-1, periodic=per, shared=shared), timeout=900 if q else 2400))
+    RUNS = [([], (2, 2, 1), 2, (True, True, False), 1, False), (["C4z"], (2, 2, 1), 2, (True, True, False), 1, True), (["Inversion"], (2, 1, 1), (2, 3, 2), (True, False, False), 2, True),
+            ([], (2, 2, 1), 2, (True, True, True), 1, False)]
+    if not q:
+        RUNS += [(["Mx", "My"], (2, 2, 1), 3, (True, True, False), 2, True), ([], (1, 2, 2), (2, 2, 3), (False, True, True), 2, False), (["C4z", "Inversion"], (2, 2, 2), 2, (True, True, True), 1, True)]
+    for gens, NK, mesh, per, niter, irred in RUNS:
+        ptxt = "".join("T" if x else "F" for x in per)
+        out.append(Case(f"run() {gens} periodic={ptxt} NK={NK} adpt_mesh={mesh} iterations={niter} irred={irred}", case_run,
+                        dict(gens=gens, NKdiv=NK, mesh=mesh, periodic=per, niter=niter, irred=irred), timeout=900 if q else 2400))
     for latt, length, NKFFT in (("cubic", 3, 1), ("cubic", 7, 2), ("tetra", 6, 1), ("tric", 5, 1)) + (() if q else (("cubic", 9, 1), ("hex", 8, 2))):
         out.append(Case(f"tetra grid {latt} length={length} NKFFT={NKFFT}", case_tetra_grid, dict(latt=latt, length=length, NKFFT=NKFFT), timeout=900 if q else 2400))
     for edge in range(6):
@@ -412,9 +502,10 @@ def replay(rec):
     rng = np.random.RandomState(11)
     if w["test"] in ("grid", "nosym"):
         gens, latt = (w["gens"], w["latt"]) if w["test"] == "grid" else ([], "cubic")
-        sysobj = SysG(gens, LATT[latt])
+        sysobj = SysG(gens, LATT[latt], tuple(w.get("periodic", (True, True, True))))
         mesh = w["mesh"]
         ndiv = np.array(mesh if isinstance(mesh, list) else [mesh] * 3)
+        shared_mesh = ndiv.copy()
         p = np.array(w["p"], dtype=float)
         pts = [p] + [rng.uniform(0, 1, 3) for _ in range(200)]
         msgs = []
@@ -442,8 +533,16 @@ def replay(rec):
             parent = K_list[idx]
             before = parent.factor
             l1 = len(K_list)
+            nd_eff = np.where(sysobj.periodic, ndiv, 1)
             with contextlib.redirect_stdout(io.StringIO()):
-                new = parent.divide(ndiv=ndiv.copy(), periodic=sysobj.periodic, use_symmetry=(w["test"] == "grid"))
+                twin = KP.KpointBZparallel(K=parent.K.copy(), dK=parent.dK.copy(), NKFFT=parent.NKFFT.copy(), factor=parent.factor, pointgroup=parent.pointgroup,
+                                           refinement_level=parent.refinement_level)
+                for c in twin.divide(ndiv=ndiv.copy(), periodic=sysobj.periodic, use_symmetry=False):
+                    if np.abs(c.dK * nd_eff - parent.dK).max() > 1e-12 or np.abs((c.K - parent.K)[~sysobj.periodic]).max(initial=0) > 1e-12:
+                        bad = True
+                        msgs.append(f"sub-cell K={c.K.tolist()} dK={c.dK.tolist()} of the cell K={parent.K.tolist()} dK={parent.dK.tolist()} (periodic={sysobj.periodic.tolist()}, mesh {ndiv.tolist()})")
+                        break
+                new = parent.divide(ndiv=shared_mesh if w.get("shared") else ndiv.copy(), periodic=sysobj.periodic, use_symmetry=(w["test"] == "grid"))
                 if parent.factor != 0 or abs(sum(K.factor for K in new) - before) > 1e-12:
                     bad = True
                     msgs.append("parent keeps weight or children do not add up")
@@ -452,6 +551,27 @@ def replay(rec):
                     exclude_equiv_points(K_list, new_points=len(K_list) - l1)
             check("after step")
         return bool(bad), "; ".join(msgs)
+    if w["test"] == "run":
+        from props import rundriver as D
+        reg = D.ConcreteRegistry(w["values"])
+        obs = D.ConcreteObserver(reg)
+        obs.install()
+        per = [bool(x) for x in w["periodic"]]
+        try:
+            with D.TmpDir() as tmp:
+                sysobj = _run_sys(w["gens"], per)
+                mesh = w["mesh"] if isinstance(w["mesh"], int) else tuple(w["mesh"])
+                D.do_run(sysobj, D.make_concrete_calc(reg), tuple(w["NKdiv"]), w["niter"], tmp, use_irred_kpt=w["irred"], symmetrize=w["irred"], adpt_fac=1, adpt_mesh=mesh)
+        except Exception as e:
+            return True, f"run() raises {type(e).__name__}: {e}"
+        finally:
+            obs.uninstall()
+        K_list = obs.K_list
+        ssum = sum(K.factor for K in K_list)
+        pts = [np.array(w["p"], dtype=float)] + [rng.uniform(0, 1, 3) for _ in range(200)]
+        worst = max(abs(_density(K_list, sysobj, q_) - 1) for q_ in pts)
+        ext = [(K.K.tolist(), K.dK.tolist()) for K in K_list if any(not per[i] and (abs(K.dK[i] - 1) > 1e-12 or abs(K.K[i]) > 1e-12) for i in range(3))]
+        return bool(abs(ssum - 1) > 1e-9 or worst > 1e-6 or ext), f"run() periodic={per}: sum w={ssum:.6f} max|density-1|={worst:.3f}; cells divided along a non-periodic direction: {ext[:2]}"
     if w["test"] == "tetragrid":
         sysobj = SysG([], LATT[w["latt"]])
         with contextlib.redirect_stdout(io.StringIO()), warnings.catch_warnings():
